@@ -169,7 +169,26 @@ def the_grid():
     return _GRID
 
 
+PURE_URLS = ["http://bit.ly/abcd", "http://doi.org/10.1/x", "http://youtube.com/watch?v=1", "http://l.a.com/abcd", "http://a.com/abcd", "http://facebook.com/x",
+             "twitter.com", "http://t.me/s/x", "http://instagram.com/p/x", "http://bit.ly", "http://sub.youtu.be/x", "http://list-manage.com/x"]
+
+
+def pure_labels():
+    mods = {"is_facebook_url": "ural.facebook", "is_twitter_url": "ural.twitter", "is_instagram_url": "ural.instagram",
+            "is_telegram_url": "ural.telegram", "is_youtube_url": "ural.youtube", "is_shortened_url": "ural", "should_resolve": "ural"}
+    return [{"mod": mods[p], "fn": p, "args": [u]} for u in PURE_URLS for p in PREDS]
+
+
+def pure_thunk(label):
+    mod = importlib.import_module(label["mod"])
+    f = getattr(mod, label["fn"])
+    args, kw = label.get("args", []), label.get("kw", {})
+    return lambda: core.call(f, *args, **kw)
+
+
 def judge(w):
+    if "history" in w:
+        return core.judge_history(PROP + ".pure", w, pure_thunk)
     g = the_grid()
     return evaluate(dict(g.default_case(), **w["case"]))[0]
 
@@ -195,6 +214,8 @@ def run(chk):
         "host." % nd
     )
     failures, tags = grid.run(chk, g, d, evaluate, target=4000, shrink=(g.wit, g.wsimplify, fails_fn))
+    chk.rule.append("H2: every ordered pair of %d predicate calls from a reset module state." % len(pure_labels()))
+    core.explore_pairs(chk, PROP + ".pure", [(l, pure_thunk(l)) for l in pure_labels()])
     n = chk.cov["states"]
     chk.add("transitions", n * (len(PREDS) * len(FORMS) + 6))
     chk.add("evaluations", n * len(PREDS) * len(FORMS))
